@@ -93,6 +93,7 @@ class C10(E1Check):
         progs.append({"equal_owners": True})
         progs.append({"scenario": "copy"})
         progs.append({"scenario": "owner-gone"})
+        progs.append({"scenario": "redispatch"})
         return progs
 
     def work(self, unit: Any, tier: str) -> dict:
@@ -128,7 +129,34 @@ class C10(E1Check):
                 async for ev in stream:
                     sink.append(ev)
 
-            if unit["scenario"] == "copy":
+            if unit["scenario"] == "redispatch":
+                # one event object relayed: dispatched again on another signal / another instance, it is stamped by THAT dispatch
+                class Two:
+                    a = Signal(Ev)
+                    b = Signal(Ev)
+
+                s1, s2 = Two(), Two()
+                got2: list = []
+                gotb: list = []
+                async with s2.a.stream_events() as st2, s1.b.stream_events() as stb:
+                    async with anyio.create_task_group() as tg:
+                        tg.start_soon(consume, st2, got2)
+                        tg.start_soon(consume, stb, gotb)
+                        await anyio.wait_all_tasks_blocked()
+                        ev = Ev(1)
+                        s1.a.dispatch(ev)
+                        t1 = ev.time
+                        s2.a.dispatch(ev)
+                        stamp2 = (ev.source, ev.topic)
+                        s1.b.dispatch(ev)
+                        stamp3 = (ev.source, ev.topic)
+                        await anyio.wait_all_tasks_blocked()
+                        tg.cancel_scope.cancel()
+                if stamp2[0] is not s2 or stamp2[1] != "a" or stamp3[0] is not s1 or stamp3[1] != "b" or not isinstance(ev.time, float) or ev.time < t1:
+                    fails.append(("stamp", f"an event dispatched again on another channel carried source/topic {stamp2!r} then {stamp3!r}"))
+                if len(got2) != 1 or len(gotb) != 1:
+                    fails.append(("redispatch", f"subscribers of the second / third channel received {len(got2)} / {len(gotb)} events"))
+            elif unit["scenario"] == "copy":
                 src = Src()
                 first = src.a
                 got_o: list = []
@@ -283,6 +311,9 @@ class C10(E1Check):
 
             def __init__(self, name: str) -> None:
                 self.name = name
+
+            def __len__(self) -> int:
+                return 0  # an event source may well be an (empty, hence falsy) container
 
         log = env.log
         insts = {"i0": Src("i0"), "i1": Src("i1")}
